@@ -70,7 +70,8 @@ class ViolationFilter:
         line2 = v2.line or 0
 
         # Extract line count from message format: "Duplicate code (N lines, ...)"
-        line_count = self._extract_line_count(v1.message)
+        # The span that matters is that of the kept (earlier) block, which starts at line2
+        line_count = self._extract_line_count(v2.message)
 
         # Blocks overlap if their line ranges intersect
         # Block at line2 covers [line2, line2 + line_count - 1]
